@@ -156,7 +156,9 @@ def decided(p, op, a, b, taken=True):
 FUTEX_OPS = ('mapGet', 'mapInsert', 'mapRemove', 'mapInitialize', 'listPrepend', 'listRemove')
 
 
-def wait_paths(tu, timeout_negative):
+def wait_paths(tu, timeout_negative, timeout=None):
+    """paths of wasmMemoryAtomicWait for one concrete timeout (default -1 = infinite / 1000 ns); 0 and 1 are the boundary values
+    a zero-timeout 'poll' shortcut would single out"""
     state = {}
 
     def fresh():
@@ -170,7 +172,7 @@ def wait_paths(tu, timeout_negative):
         mem = {'v': runtime.memory_record(it, shared=True)}
         dict.__setitem__(mem['v'], 'futex', unk('futex-map') if True else 0)
         args = [Ptr(mem, 'v'), unk('address', 'unsigned int'), unk('expect', 'unsigned long long'),
-                -1 if timeout_negative else 1000, unk('wait64')]
+                (timeout if timeout is not None else -1 if timeout_negative else 1000), unk('wait64')]
         return ('wasmMemoryAtomicWait', args, {'mem': mem['v'], 'st': state})
     return it.explore(setup)
 
@@ -193,14 +195,14 @@ def check_wait(chk, tu):
     site = 'wasmMemoryAtomicWait'
     chk.fn(site)
     n_paths = 0
-    for neg in (True, False):
-        paths = wait_paths(tu, neg)
+    for neg, tmo in ((True, None), (False, None), (False, 0), (False, 1)):
+        paths = wait_paths(tu, neg, tmo)
         for p in paths:
             if p.aborted in ('wait-bound', 'assert'):
                 continue
             n_paths += 1
             cond = p.cond_text()
-            tag = '%s[%s]' % ('inf' if neg else 'timed', cond[:70])
+            tag = '%s[%s]' % ('inf' if neg else 'timed' if tmo is None else 'timed=%d' % tmo, cond[:70])
             tr, held_end = scan_locks(chk, p, site)
             chk.expect(held_end == 0, 'R17.2', 'balanced:' + tag,
                        'wasmMemoryAtomicWait returns with the mutex %s on path %s' % ('held' if held_end > 0 else 'over-released', cond), site)
